@@ -105,6 +105,13 @@ def build(reg):
         rv = fresh_z(BOOL, 'isfile'); st.assume(rv == r)
         after_action(eng, st, 'isfile', node, False)
         return [(st, mk_bool(rv))]
+    @reg.model('os.path.exists', 'os.path.lexists')
+    def exists_(eng, st, args, kw, node):
+        # a check is only a snapshot: the environment (other uploaders, mirroring downloaders) acts right after it
+        r = z3.Select(fs.ex(st), args[0].z)
+        rv = fresh_z(BOOL, 'exists'); st.assume(rv == r)
+        after_action(eng, st, 'exists', node, False)
+        return [(st, mk_bool(rv))]
     ISDIR = z3.Function('os_path_isdir', S, z3.BoolSort())
     reg.models['os.path.isdir'] = lambda eng, st, args, kw, node: [(st, mk_bool(fresh_z(BOOL, 'isdir')))]
     reg.models['os.umask'] = lambda eng, st, args, kw, node: [(st, mk_int(fresh_z(INT, 'umask')))]
